@@ -57,6 +57,11 @@ pub(crate) fn extract_variable(
     // and is block level, so we can insert our variable before
     // this expression.
     let mut enclosing_block_level_expr: Option<Expression> = None;
+    // In `else if cond { .. }` the nested `if` is not inside braces
+    // (the parser wraps it in a block that has no braces of its
+    // own). To insert a variable before it, we must add the braces:
+    // this is the column of the `if` that owns that `else`.
+    let mut brace_else_if: Option<usize> = None;
     'outer: for id in ids_containing_pos.iter().rev() {
         let AstId::Expr(expr_syntax_id) = id else {
             continue;
@@ -98,7 +103,13 @@ pub(crate) fn extract_variable(
                 if block_contains_id(then_block, *expr_id)
                     || block_contains_id(else_block, *expr_id) =>
             {
-                break
+                if !block_contains_id(then_block, *expr_id)
+                    && else_block.open_brace.start_offset == else_block.close_brace.start_offset
+                    && else_block.open_brace.end_offset == else_block.close_brace.end_offset
+                {
+                    brace_else_if = Some(expr.position.column);
+                }
+                break;
             }
             Expression_::Let(_, _, _) => {
                 enclosing_block_level_expr = Some(expr.clone());
@@ -135,18 +146,35 @@ pub(crate) fn extract_variable(
             result.push_str(
                 &src[item_pos.start_offset..enclosing_block_level_expr.position.start_offset],
             );
+            let indent = match brace_else_if {
+                Some(column) => {
+                    result.push_str("{\n");
+                    result.push_str(&" ".repeat(column + 2));
+                    column + 2
+                }
+                None => enclosing_block_level_expr.position.column,
+            };
             result.push_str(&format!(
                 "let {} = {}\n{}",
                 name,
                 &src[var_init_expr.position.start_offset..var_init_expr.position.end_offset],
-                " ".repeat(enclosing_block_level_expr.position.column)
+                " ".repeat(indent)
             ));
 
             result.push_str(
                 &src[enclosing_block_level_expr.position.start_offset..expr.position.start_offset],
             );
             result.push_str(name);
-            result.push_str(&src[expr.position.end_offset..item_pos.end_offset]);
+            match brace_else_if {
+                Some(column) => {
+                    // Close the braces after the nested `if`.
+                    let if_end = enclosing_block_level_expr.position.end_offset;
+                    result.push_str(&src[expr.position.end_offset..if_end]);
+                    result.push_str(&format!("\n{}}}", " ".repeat(column)));
+                    result.push_str(&src[if_end..item_pos.end_offset]);
+                }
+                None => result.push_str(&src[expr.position.end_offset..item_pos.end_offset]),
+            }
 
             // Items after.
             result.push_str(&src[item_pos.end_offset..]);
